@@ -101,6 +101,11 @@ def build_harness():
     env = dict(os.environ, CARGO_NET_OFFLINE="true")
     r = subprocess.run(["cargo", "build", "--offline", "--quiet"], cwd=HARNESS, env=env,
                        stdout=subprocess.PIPE, stderr=subprocess.STDOUT, text=True)
+    if r.returncode != 0 and not any(l.startswith("error[") for l in r.stdout.splitlines()):
+        # not a compile error (killed compiler, lock time-out on a loaded machine): once more
+        time.sleep(5)
+        r = subprocess.run(["cargo", "build", "--offline", "--quiet"], cwd=HARNESS, env=env,
+                           stdout=subprocess.PIPE, stderr=subprocess.STDOUT, text=True)
     if r.returncode != 0:
         errs = [l for l in r.stdout.splitlines() if l.startswith("error")][:10]
         raise ToolError("harness build failed (does /repo still compile with --cfg rustradio_verif?):\n"
